@@ -600,7 +600,6 @@ func (r *runner) blockEv(s Seg) (refutes int, _ *h.Failure) {
 	// Register calls (handlers of one family are serialised by the watcher)
 	var pos [3]int
 	var firstMismatch *h.Failure
-	tried := 0
 	var search func(m *model, pos [3]int, calls []regCall, classes []string, nref int) (*model, []string, int, bool)
 	search = func(m *model, pos [3]int, calls []regCall, classes []string, nref int) (*model, []string, int, bool) {
 		rest := false
@@ -634,11 +633,8 @@ func (r *runner) blockEv(s Seg) (refutes int, _ *h.Failure) {
 				return mm, cl, n, true
 			}
 		}
-		if !rest {
-			tried++
-			if len(calls) == 0 {
-				return m, classes, nref, true
-			}
+		if !rest && len(calls) == 0 {
+			return m, classes, nref, true
 		}
 		return nil, nil, 0, false
 	}
